@@ -1,3 +1,59 @@
+//! `cargo run --release -p byzsim --example run -- [N]`: run the engine stand-alone (default 20000 probes).
+//! `run --replay <file>` re-executes the case of a replay file; `run --determinism <n>` executes n cases twice.
+#[global_allocator]
+static A: simcore::alloc::CountingAlloc = simcore::alloc::CountingAlloc;
+
+use simcore::Engine;
+
 fn main() {
-    println!("engine not implemented yet");
+    let args: Vec<String> = std::env::args().collect();
+    if args.get(1).map(|s| s.as_str()) == Some("--replay") {
+        let text = std::fs::read_to_string(&args[2]).expect("read replay file");
+        let v: serde_json::Value = serde_json::from_str(&text).expect("replay file is json");
+        match simcore::engine::replay_case(&byzsim::ByzSim, &v) {
+            Ok((true, sigs)) => println!("reproduced {sigs:?}"),
+            Ok((false, sigs)) => {
+                println!("NOT reproduced; got {sigs:?}");
+                std::process::exit(2);
+            }
+            Err(e) => {
+                println!("harness error: {e}");
+                std::process::exit(2);
+            }
+        }
+        return;
+    }
+    if args.get(1).map(|s| s.as_str()) == Some("--determinism") {
+        let n: u64 = args.get(2).and_then(|s| s.parse().ok()).unwrap_or(2000);
+        let ctx = simcore::Ctx {
+            prop: "C04".into(),
+            tier: simcore::Tier::Quick,
+            root_seed: 1,
+            threads: std::env::var("VERIF_THREADS").ok().and_then(|s| s.parse().ok()).unwrap_or(8),
+            known: Default::default(),
+            replay_dir: "/var/tmp/selftest-replays".into(),
+            started: std::time::Instant::now(),
+        };
+        let bad = simcore::engine::determinism_check(&ctx, &byzsim::ByzSim, n);
+        for (seed, what) in &bad {
+            println!("seed {seed} differs: {what}");
+        }
+        println!("determinism: {n} cases executed twice, {} differ", bad.len());
+        std::process::exit(if bad.is_empty() { 0 } else { 2 });
+    }
+    if args.get(1).map(|s| s.as_str()) == Some("--seed") {
+        // debugging aid: print the case generated for a run seed and execute it
+        let seed: u64 = args[2].parse().expect("seed");
+        let eng = byzsim::ByzSim;
+        let case = eng.generate(0, seed, simcore::Tier::Quick);
+        println!("{}", serde_json::to_string_pretty(&case).unwrap());
+        let out = simcore::engine::execute_case(&eng, &case, seed);
+        println!("violations {:?}\nstats {:?}\nharness_error {:?}", out.violations, out.stats.0, out.harness_error);
+        return;
+    }
+    let runs: u64 = args.get(1).and_then(|s| s.parse().ok()).unwrap_or(20000);
+    let n = simcore::selftest::run(&byzsim::ByzSim, "C04", runs, simcore::Tier::Quick);
+    if n > 0 {
+        std::process::exit(1);
+    }
 }
